@@ -227,4 +227,100 @@ theorem composite_lt_iff : ∀ (va vb a b : Str), SepSafe va = true → SepSafe 
         · exact Or.inr ⟨hxy, Or.inl h⟩
         · exact Or.inr ⟨hxy, Or.inr ⟨hv, hab⟩⟩
 
+theorem lowSepPair_nil_cons (y : Char) (r : Str) : lowSepPair [] (y :: r) = false ↔ '/' < y := by
+  simp only [lowSepPair, List.isPrefixOf, List.length_nil, List.drop_zero, Bool.true_and, Bool.or_eq_false_iff,
+    decide_eq_false_iff_not, beq_eq_false_iff_ne, ne_eq]
+  constructor
+  · rintro ⟨h1, h2⟩
+    rcases Nat.lt_trichotomy y.val.toNat '/'.val.toNat with h | h | h
+    · exact absurd (by exact Char.lt_def.mpr (by exact UInt32.lt_iff_toNat_lt.mpr h)) h1
+    · exact absurd (Char.ext (UInt32.toNat_inj.mp h)) h2
+    · exact Char.lt_def.mpr (UInt32.lt_iff_toNat_lt.mpr h)
+  · intro h
+    exact ⟨Char.lt_asymm h, fun he => by rw [he] at h; exact Char.lt_irrefl _ h⟩
+
+theorem lowSepPair_cons_cons (x : Char) (a b : Str) : lowSepPair (x :: a) (x :: b) = lowSepPair a b := by
+  simp [lowSepPair, List.isPrefixOf]
+
+/-- `va ++ "/" ++ a` orders like the pair (va, a) EXACTLY when neither value is a proper prefix of the other
+followed by a byte ≤ '/' (`lowSepPair`). -/
+theorem composite_lt_iff_compat : ∀ (va vb a b : Str), lowSepPair va vb = false → lowSepPair vb va = false →
+    (va ++ '/' :: a < vb ++ '/' :: b ↔ va < vb ∨ (va = vb ∧ a < b)) := by
+  intro va
+  induction va with
+  | nil =>
+    intro vb a b h1 _
+    cases vb with
+    | nil =>
+      simp only [List.nil_append, List.cons_lt_cons_iff]
+      constructor
+      · rintro (h | ⟨_, h⟩)
+        · exact absurd h (Char.lt_irrefl _)
+        · exact Or.inr ⟨trivial, h⟩
+      · rintro (h | ⟨_, h⟩)
+        · exact absurd h (List.lt_irrefl _)
+        · exact Or.inr ⟨trivial, h⟩
+    | cons y vb' =>
+      have hy : '/' < y := (lowSepPair_nil_cons y vb').mp h1
+      simp only [List.nil_append, List.cons_append, List.cons_lt_cons_iff]
+      constructor
+      · intro _; exact Or.inl (List.nil_lt_cons _ _)
+      · intro _; exact Or.inl hy
+  | cons x va' ih =>
+    intro vb a b h1 h2
+    cases vb with
+    | nil =>
+      have hx : '/' < x := (lowSepPair_nil_cons x va').mp h2
+      simp only [List.nil_append, List.cons_append, List.cons_lt_cons_iff]
+      constructor
+      · rintro (h | ⟨h, _⟩)
+        · exact absurd h (Char.lt_asymm hx)
+        · exact absurd hx (h ▸ Char.lt_irrefl _)
+      · rintro (h | ⟨h, _⟩)
+        · exact absurd h (List.not_lt_nil _)
+        · cases h
+    | cons y vb' =>
+      by_cases hxy : x = y
+      · subst hxy
+        rw [lowSepPair_cons_cons] at h1 h2
+        simp only [List.cons_append, List.cons_lt_cons_iff, ih vb' a b h1 h2, List.cons.injEq]
+        constructor
+        · rintro (h | ⟨hxy, h | ⟨hv, hab⟩⟩)
+          · exact Or.inl (Or.inl h)
+          · exact Or.inl (Or.inr ⟨hxy, h⟩)
+          · exact Or.inr ⟨⟨hxy, hv⟩, hab⟩
+        · rintro ((h | ⟨hxy, h⟩) | ⟨⟨hxy, hv⟩, hab⟩)
+          · exact Or.inl h
+          · exact Or.inr ⟨hxy, Or.inl h⟩
+          · exact Or.inr ⟨hxy, Or.inr ⟨hv, hab⟩⟩
+      · simp only [List.cons_append, List.cons_lt_cons_iff, List.cons.injEq]
+        constructor
+        · rintro (h | ⟨h, _⟩)
+          · exact Or.inl (Or.inl h)
+          · exact absurd h hxy
+        · rintro ((h | ⟨h, _⟩) | ⟨⟨h, _⟩, _⟩)
+          · exact Or.inl h
+          · exact absurd h hxy
+          · exact absurd h hxy
+
+/-- A value without a byte ≤ '/' is never the longer half of a low-separator pair. -/
+theorem lowSepPair_of_sepSafe : ∀ (a b : Str), SepSafe b = true → lowSepPair a b = false := by
+  intro a
+  induction a with
+  | nil =>
+    intro b hb
+    cases b with
+    | nil => simp [lowSepPair]
+    | cons y r => exact (lowSepPair_nil_cons y r).mpr (sepSafe_iff.mp hb y List.mem_cons_self)
+  | cons x a' ih =>
+    intro b hb
+    cases b with
+    | nil => simp [lowSepPair, List.isPrefixOf]
+    | cons y r =>
+      by_cases hxy : x = y
+      · subst hxy
+        rw [lowSepPair_cons_cons]
+        exact ih r (sepSafe_iff.mpr (fun ch h => sepSafe_iff.mp hb ch (List.mem_cons_of_mem _ h)))
+      · simp [lowSepPair, List.isPrefixOf, hxy]
+
 end Kap.C15
